@@ -2,6 +2,7 @@
 //! Generates inputs, runs the REAL renoir code on them and writes Coq case files.
 mod cases;
 mod coqfmt;
+mod dynop;
 mod props;
 mod rng;
 mod script;
@@ -69,6 +70,16 @@ fn main() {
             let mut sink = cases::CaseSink::new("C07", "Corr.C07", &opts.out, 150);
             props::c07::generate(&opts, &mut sink);
             sink.finish(props::c07::RULE, serde_json::json!({}));
+        }
+        "C19" => {
+            let mut sink = cases::CaseSink::new("C19", "Corr.C19 Model.Sched", &opts.out, 100);
+            props::c19::generate(&opts, &mut sink);
+            sink.finish(props::c19::RULE, serde_json::json!({}));
+        }
+        "C16" => {
+            let mut sink = cases::CaseSink::new("C16", "Corr.C16", &opts.out, 200);
+            props::c16::generate(&opts, &mut sink);
+            sink.finish(props::c16::RULE, serde_json::json!({}));
         }
         p => {
             eprintln!("unknown property {p}");
